@@ -74,12 +74,32 @@ fn sequences(k: usize, max_len: usize) -> Vec<Vec<usize>> {
 
 const PADS: [usize; 9] = [0, 4, 8, 12, 1, 2, 3, 5, 7];
 
+/// A source that hands out at most `max` bytes per read call (0 = no limit).
+struct Chunked<'a> {
+    data: &'a [u8],
+    pos: usize,
+    max: usize,
+}
+
+impl Read for Chunked<'_> {
+    fn read(&mut self, buf: &mut [u8]) -> std::io::Result<usize> {
+        let mut n = buf.len().min(self.data.len() - self.pos);
+        if self.max != 0 {
+            n = n.min(self.max);
+        }
+        buf[..n].copy_from_slice(&self.data[self.pos..self.pos + n]);
+        self.pos += n;
+        Ok(n)
+    }
+}
+
 pub fn run(cli: &Cli, rep: &Report) {
     let thorough = cli.thorough();
     rep.rule(
         "E-enum: every sequence of 1..=n XZ streams from a set of 6 (empty, 1 block, 2 blocks, all check types, a BCJ filter, one liblzma-made) x every assignment of a stream-padding length \
          from {0,4,8,12 (valid), 1,2,3,5,7 (invalid)} after each stream (including the last) x allow_multiple_streams in {true,false}; every sequence of 1..=m LZIP members from \
-         {empty, 1 byte, 5 KiB, other dictionary sizes}; non-trivial = at least two streams/members",
+         {empty, 1 byte, 5 KiB, other dictionary sizes}; each file read from a plain slice and from sources that hand out at most 1, 3 or 7 bytes per read call \
+         (headers, footers, padding and the next magic arrive in pieces); non-trivial = at least two streams/members",
     );
     let xp = xz_pieces();
     let lp = lzip_pieces();
@@ -114,13 +134,16 @@ pub fn run(cli: &Cli, rep: &Report) {
                     content.extend_from_slice(&xp[pi].content);
                 }
                 let all_valid = pads.iter().all(|p| p % 4 == 0);
-                for multi in [true, false] {
+                for (multi, chunk) in [(true, 0usize), (false, 0), (true, 1), (true, 3), (false, 1), (true, 7)] {
+                    // chunk = the source hands out at most that many bytes per read call (0 = a plain slice): stream
+                    // headers, footers, padding and the magic of the next stream then arrive in pieces
                     let desc = || {
                         format!(
-                            "C12|xz|{}|pads{}|multi{}",
+                            "C12|xz|{}|pads{}|multi{}{}",
                             seq.iter().map(|i| xp[*i].name.clone()).collect::<Vec<_>>().join("+"),
                             pads.iter().map(|p| p.to_string()).collect::<Vec<_>>().join(","),
-                            multi as u8
+                            multi as u8,
+                            if chunk == 0 { String::new() } else { format!("|src{chunk}") }
                         )
                     };
                     if !cli.selected_with(desc) {
@@ -128,10 +151,10 @@ pub fn run(cli: &Cli, rep: &Report) {
                     }
                     st.0 += 1;
                     let r = catch(|| {
-                        let mut rd = XZReader::new(file.as_slice(), multi);
+                        let mut rd = XZReader::new(Chunked { data: &file, pos: 0, max: chunk }, multi);
                         let out = codec::read_all(&mut rd, 4096, content.len() * 2 + 65536)?;
-                        let rest: &[u8] = rd.into_inner();
-                        Ok::<_, std::io::Error>((out, rest.len()))
+                        let src = rd.into_inner();
+                        Ok::<_, std::io::Error>((out, src.data.len() - src.pos))
                     });
                     let mk = |kind: &str, site: String, detail: String| {
                         rep.violation(
@@ -205,17 +228,24 @@ pub fn run(cli: &Cli, rep: &Report) {
                 file.extend_from_slice(&lp[pi].bytes);
                 content.extend_from_slice(&lp[pi].content);
             }
-            for bs in [4096usize, 1] {
+            for (bs, chunk) in [(4096usize, 0usize), (1, 0), (4096, 1), (4096, 3), (4096, 7)] {
                 if bs == 1 && content.len() > 6000 {
                     continue;
                 }
-                let desc = || format!("C12|lzip|{}|buf{}", seq.iter().map(|i| lp[*i].name.clone()).collect::<Vec<_>>().join("+"), bs);
+                let desc = || {
+                    format!(
+                        "C12|lzip|{}|buf{}{}",
+                        seq.iter().map(|i| lp[*i].name.clone()).collect::<Vec<_>>().join("+"),
+                        bs,
+                        if chunk == 0 { String::new() } else { format!("|src{chunk}") }
+                    )
+                };
                 if !cli.selected_with(desc) {
                     continue;
                 }
                 st.0 += 1;
                 let r = catch(|| {
-                    let mut rd = LZIPReader::new(file.as_slice())?;
+                    let mut rd = LZIPReader::new(Chunked { data: &file, pos: 0, max: chunk })?;
                     let mut out = vec![];
                     let mut buf = vec![0u8; bs];
                     loop {
